@@ -5,6 +5,7 @@ package main
 import (
 	"bufio"
 	"crypto/rand"
+	"encoding/json"
 	"flag"
 	"fmt"
 	mrand "math/rand"
@@ -625,6 +626,8 @@ func (s *schedule) next() bool {
 
 // ---------------------------------------------------------------- driver
 
+var lastLogScan string
+
 func runScenario(c mcfg, fn scenarioFn, seed int64) (in, impl string, err error) {
 	sharedMiniredis() // started outside the bubble
 	sharedKeys()
@@ -670,6 +673,14 @@ func runScenario(c mcfg, fn scenarioFn, seed int64) (in, impl string, err error)
 				synctest.Wait()
 			}
 		}
+		{
+			n, leaks, msgs := m.s.logScan()
+			if len(leaks) > 5 {
+				leaks = leaks[:5]
+			}
+			b, _ := json.Marshal(map[string]any{"entries": n, "leaks": leaks, "messages": msgs})
+			lastLogScan = string(b)
+		}
 		m.s.close()
 	})
 	if err != nil {
@@ -706,9 +717,15 @@ func runMachine(args []string) error {
 		return err
 	}
 	defer fimpl.Close()
-	win, wimpl := bufio.NewWriter(fin), bufio.NewWriter(fimpl)
+	flog, err := os.Create(*out + ".logscan")
+	if err != nil {
+		return err
+	}
+	defer flog.Close()
+	win, wimpl, wlog := bufio.NewWriter(fin), bufio.NewWriter(fimpl), bufio.NewWriter(flog)
 	defer win.Flush()
 	defer wimpl.Flush()
+	defer wlog.Flush()
 	count := 0
 	emit := func(c mcfg, fn scenarioFn, sd int64) error {
 		in, impl, err := runScenario(c, fn, sd)
@@ -717,6 +734,7 @@ func runMachine(args []string) error {
 		}
 		fmt.Fprintln(win, in)
 		fmt.Fprintln(wimpl, impl)
+		fmt.Fprintln(wlog, lastLogScan)
 		count++
 		return nil
 	}
